@@ -338,3 +338,39 @@ Example C08_ex_sql :
   sql_insert [65] [CNum 1; CText (text_of_string "it's; --"); CNull]
   = text_of_string "INSERT INTO ""A"" VALUES(1,'it''s; --',NULL)".
 Proof. vm_compute. reflexivity. Qed.
+
+(* Round 4: every cell is encoded from its own value.  A cache in front of an encoder that finds entries by a
+   key equality [keq] -- with ANY eviction policy and ANY (sound) contents left by earlier runs in the process --
+   writes, for EVERY value sequence, exactly what the encoder writes, provided [keq] only identifies values the
+   encoder writes alike ... *)
+Theorem C08_value_cache_faithful :
+  forall (keq : value -> value -> bool) (enc : value -> result cell) evict,
+    (forall a b, keq a b = true -> enc a = enc b) ->
+    (forall c, incl (evict c) c) ->
+    forall vs c, cache_sound enc c ->
+      fst (memo_run keq enc evict c vs) = map enc vs /\ cache_sound enc (snd (memo_run keq enc evict c vs)).
+Proof. exact memo_run_faithful. Qed.
+Print Assumptions C08_value_cache_faithful.
+
+(* ... and that proviso is necessary (already for runs of two values from an empty cache) *)
+Theorem C08_value_cache_needs_keys_respecting_encoding :
+  forall keq enc,
+    (forall a b, fst (memo_run keq enc (fun c => c) [] [a; b]) = [enc a; enc b]) ->
+    forall a b, keq a b = true -> enc a = enc b.
+Proof. exact memo_faithful_needs_keys_respect_encoding. Qed.
+Print Assumptions C08_value_cache_needs_keys_respecting_encoding.
+
+(* Python's == is NOT such an equality: one instant in two UTC offsets (the seeded change r4_C08_1: lru_cache on
+   format_datetime) within one run; True after an earlier run wrote 1 (JSON) *)
+Definition utc1230 := VDateTime 2021 3 4 12 30 0 0 (Some 0).
+Definition ist1800 := VDateTime 2021 3 4 18 0 0 0 (Some 330).
+
+Example C08_ex_py_eq_twins : py_eq utc1230 ist1800 = true /\ py_eq (VBool true) (VInt 1) = true.
+Proof. vm_compute. split; reflexivity. Qed.
+
+Example C08_value_cache_by_python_equality_refuted :
+  fst (memo_run py_eq (encode FCsv false) (fun c => c) [] [utc1230; ist1800])
+    <> map (encode FCsv false) [utc1230; ist1800]
+  /\ fst (memo_run py_eq (encode FJson false) (fun c => c) [(VInt 1, encode FJson false (VInt 1))] [VBool true])
+    <> map (encode FJson false) [VBool true].
+Proof. split; vm_compute; intro H; discriminate H. Qed.
